@@ -12,8 +12,9 @@ import (
 
 // =================== C17 / C14: reused iterator and unfolder ===================
 // histfold \t <n> ; type | value ; ... (the last one is the probe) \t EV toks R verdict [## C17 fresh=...]
-//   all values are folded through ONE Iterator; the probe's events are reported and compared
-//   (on the Go side) with a fresh iterator.
+//
+//	all values are folded through ONE Iterator; the probe's events are reported and compared
+//	(on the Go side) with a fresh iterator.
 func histfoldRun(items [][2]string) string {
 	rec := newXRecorder(-1)
 	var err error
@@ -92,8 +93,9 @@ func histfoldReplay(input string) string {
 }
 
 // histunf \t <n> ; type | old | events | abandon(0/1) ; ...  \t <observation of the last document> [## C17 fresh=...]
-//   all documents go through ONE Unfolder (SetTarget before each, Reset after an abandoned or
-//   failed one); the last document's observation is compared with a fresh unfolder.
+//
+//	all documents go through ONE Unfolder (SetTarget before each, Reset after an abandoned or
+//	failed one); the last document's observation is compared with a fresh unfolder.
 type unfDoc struct {
 	t       reflect.Type
 	old     reflect.Value
